@@ -3,6 +3,8 @@ package tlsx
 import (
 	"bytes"
 	"testing"
+
+	"verifharness/ref/rgmssl"
 )
 
 func TestSmoke(t *testing.T) {
@@ -20,6 +22,16 @@ func TestSmoke(t *testing.T) {
 	} {
 		r := tc.run()
 		t.Logf("%s: %s suite=%x vers=%x", tc.name, r.Describe(), r.Client.State.CipherSuite, r.Client.State.Version)
+		if tc.name == "gm" || tc.name == "auto-gm" {
+			d, err := rgmssl.Decode(r.Log, p.SrvEnc.SM2D, nil)
+			if err != nil {
+				t.Errorf("%s: passive decode: %v", tc.name, err)
+			} else if !bytes.Equal(d.ClientApp, msgC) || !bytes.Equal(d.ServerApp, msgS) || !d.ClientFinishedOK || !d.ServerFinishedOK {
+				t.Errorf("%s: passive decode mismatch", tc.name)
+			} else {
+				t.Logf("%s: passive decoder: %d+%d records, finished ok, %d handshake messages", tc.name, len(d.ClientRecs), len(d.ServerRecs), len(d.Messages))
+			}
+		}
 		if tc.name != "gm-vs-tls" && (!bytes.Equal(r.Server.Received, msgC) || !bytes.Equal(r.Client.Received, msgS)) {
 			t.Errorf("%s: data mismatch", tc.name)
 		}
